@@ -108,8 +108,11 @@ func (cmd *IdleCommand) Wait() error {
 
 func (c *Client) idle() (*idleCommand, error) {
 	cmd := &idleCommand{}
-	contReq := c.registerContReq(cmd)
+	// The continuation request must be registered once we hold the encoder
+	// lock: otherwise it may be queued before the request of a command which
+	// is sent earlier, and steal its continuation
 	cmd.enc = c.beginCommand("IDLE", cmd)
+	contReq := c.registerContReq(cmd)
 	cmd.enc.flush()
 
 	_, err := contReq.Wait()
